@@ -42,6 +42,9 @@ func (sc *Scen) restartNode() error {
 func (sc *Scen) randomPlan() Plan {
 	r := sc.r
 	var p Plan
+	if op, ok := extPlan(sc); ok { // per-property plan override (fsm_ext.go)
+		return op
+	}
 	if sc.clean || r.Chance(55) {
 		return p // no failure injected in this step
 	}
@@ -187,7 +190,10 @@ var directedScenarios = []directed{
 }
 
 func (sc *Scen) stepNamed(n string) {
-	// steps registered by per-property files (registerStep in fsm_ext.go); additive hook
+	if extStep(sc, n) { // per-property step names (fsm_ext.go)
+		return
+	}
+	// steps registered with registerStep (fsm_ext_f1.go); additive hook
 	if runExtStep(sc, n) {
 		return
 	}
@@ -229,8 +235,20 @@ func (sc *Scen) stepNamed(n string) {
 		sc.stepRestart()
 	case "duplicate":
 		sc.stepDuplicate()
+	default:
+		// additive: step kinds registered by per-property files (registerStepKind)
+		for _, h := range extraStepKinds {
+			if h(sc, n) {
+				return
+			}
+		}
 	}
 }
+
+// registerStepKind lets per-property files add directed step kinds (init-time); a handler returns true when it recognised the name
+var extraStepKinds []func(sc *Scen, name string) bool
+
+func registerStepKind(h func(sc *Scen, name string) bool) { extraStepKinds = append(extraStepKinds, h) }
 
 func (sc *Scen) claimAmount() (amt uint64) {
 	defer func() {
